@@ -147,6 +147,17 @@ class Sym(_SymArith):
 _DTYPE_KEEPING = {'jnp.round', 'jnp.rint', 'jnp.around', 'jnp.floor', 'jnp.ceil', 'jnp.trunc', 'jnp.abs', 'jnp.negative', 'neg', 'pos', 'jnp.asarray', 'jnp.array', 'jnp.squeeze', 'jnp.ravel'}
 
 
+def _is_scalar_sym(x: Any) -> bool:
+    """A symbolic 0-d value: an opaque named 'scalar:...' or arithmetic on such values and numbers."""
+    if isinstance(x, Opaque):
+        return x.name.startswith('scalar:')
+    if isinstance(x, (int, float, complex)) and not isinstance(x, bool):
+        return True
+    if isinstance(x, Sym) and x.op in ('+', '-', '*', '/', 'neg', 'pos', 'jnp.asarray', 'jnp.array', '**') and x.args:
+        return all(_is_scalar_sym(y) for y in x.args)
+    return False
+
+
 def sym_dtype(x: Any) -> str | None:
     """Element type of a symbolic array expression, when it follows from the expression alone."""
     if isinstance(x, Opaque):
@@ -681,6 +692,8 @@ class Interp:
             return broadcast(arr)
         if path in ('jnp.asarray', 'jnp.array', 'jnp.conj', 'jnp.conjugate', 'jnp.reciprocal', 'jnp.abs', 'jnp.sqrt', 'jnp.real', 'jnp.negative', 'jnp.copy', 'jnp.isfinite', 'jnp.nan_to_num', 'lax.stop_gradient') and arr and args[0] is arr[0]:
             return args[0]
+        if path in ('jnp.ndim', 'jnp.shape', 'jnp.size') and len(args) == 1 and _is_scalar_sym(args[0]):
+            return {'jnp.ndim': 0, 'jnp.shape': (), 'jnp.size': 1}[path]
         if path == 'jnp.ndim' and arr:
             return args[0].ndim
         if path == 'jnp.shape' and arr:
@@ -812,6 +825,8 @@ class Interp:
             return operator.itemgetter(*args)
         if path == 'itertools.chain' and all(_concrete(a) for a in args):
             return list(itertools.chain(*args))
+        if self.symbolic and path in ('jnp.asarray', 'jnp.array') and len(args) == 1 and _is_scalar_sym(args[0]):
+            return args[0]
         if self.symbolic and any(isinstance(x, (Opaque, Sym)) for x in list(args) + list(kwargs.values())) and not path.startswith('furax.'):
             return Sym(path, tuple(args) + tuple(v for _, v in sorted(kwargs.items())))
         # in-package function: interpret its definition
@@ -858,9 +873,13 @@ class Interp:
     def get_attr(self, v: Any, name: str, node: ast.AST | None) -> Any:
         if v is UNK:
             return UNK
+        if isinstance(v, (int, float, complex)) and not isinstance(v, bool) and name in ('shape', 'ndim', 'size'):
+            return {'shape': (), 'ndim': 0, 'size': 1}[name]
         if isinstance(v, (Opaque, Sym)) and self.symbolic:
             if name == 'dtype' and sym_dtype(v) is not None:
                 return Ref('numpy.' + sym_dtype(v))
+            if name in ('shape', 'ndim', 'size') and _is_scalar_sym(v):
+                return {'shape': (), 'ndim': 0, 'size': 1}[name]
             return Sym('.' + name, (v,))
         if isinstance(v, AxArr):
             return self.attr_of_array(v, name)
@@ -1013,6 +1032,8 @@ class Interp:
             return Ref(q)
         if ident == 'len':
             return self._len
+        if ident == 'NotImplemented':
+            return NotImplemented
         if ident == 'setattr':
             return self._setattr
         if ident == 'object':
@@ -1104,6 +1125,11 @@ class Interp:
             if isinstance(x, ClassRef):
                 if isinstance(v, Obj):
                     res = res or self.table.is_subclass(v.cls, x.cls)
+                continue
+            if isinstance(x, Ref) and isinstance(v, Obj) and '.' in x.path and not x.path.startswith('builtins.'):
+                # an external class: does the object's class derive from it?
+                ext = {b for k_ in v.cls.mro for b in k_.external_bases}
+                res = res or any(b == x.path or b.split('.')[-1] == x.path.split('.')[-1] for b in ext)
                 continue
             if isinstance(x, Ref) and x.path.split('.')[-1] == 'ShapeDtypeStruct':
                 if isinstance(v, (Opaque, Sym, AxArr, Promoted)) or _concrete(v):
@@ -1453,6 +1479,11 @@ class Interp:
             return v
         if self.symbolic and isinstance(v, (Opaque, Sym)):
             return Sym({ast.USub: 'neg', ast.UAdd: 'pos', ast.Invert: '~'}[type(e.op)], (v,))
+        if isinstance(v, Obj) and isinstance(e.op, (ast.USub, ast.UAdd)):
+            r_ = self.table.resolve(v.cls, '__neg__' if isinstance(e.op, ast.USub) else '__pos__')
+            if r_ is not None and isinstance(r_.node, ast.FunctionDef):
+                return self.call(Func(r_.node, Env(module_of(r_.node)), v, r_.found_on), [], {}, None)
+            return UNK
         if isinstance(e.op, ast.USub):
             return -v
         if isinstance(e.op, ast.UAdd):
@@ -1461,10 +1492,36 @@ class Interp:
             return ~v
         raise Undecided('unary operator')
 
+    _DUNDERS = {ast.Add: 'add', ast.Sub: 'sub', ast.Mult: 'mul', ast.MatMult: 'matmul', ast.Div: 'truediv', ast.FloorDiv: 'floordiv', ast.Mod: 'mod', ast.Pow: 'pow', ast.BitAnd: 'and', ast.BitOr: 'or'}
+
+    def _object_binop(self, op: type, a: Any, b: Any) -> Any:
+        """Python's binary operator protocol when an operand is an object of an analysed class."""
+        name = self._DUNDERS.get(op)
+        if name is None:
+            return UNK
+        # (Python tries the reflected method first when the right operand's class is a strict subclass of the left one's and overrides it)
+        tries = [(a, f'__{name}__', b), (b, f'__r{name}__', a)]
+        if isinstance(a, Obj) and isinstance(b, Obj) and b.cls is not a.cls and self.table.is_subclass(b.cls, a.cls):
+            ra, rb = self.table.resolve(a.cls, f'__r{name}__'), self.table.resolve(b.cls, f'__r{name}__')
+            if rb is not None and (ra is None or rb.node is not ra.node):
+                tries.reverse()
+        for recv, meth, other in tries:
+            if not isinstance(recv, Obj):
+                continue
+            r = self.table.resolve(recv.cls, meth)
+            if r is None or not isinstance(r.node, ast.FunctionDef):
+                continue
+            res = self.call(Func(r.node, Env(module_of(r.node)), recv, r.found_on), [other], {}, None)
+            if res is not NotImplemented:
+                return res
+        raise Raised('TypeError')
+
     def _e_BinOp(self, e, env):
         a, b = self.eval(e.left, env), self.eval(e.right, env)
         if a is UNK or b is UNK:
             return UNK
+        if (isinstance(a, Obj) and '__record_fields__' not in a.attrs) or (isinstance(b, Obj) and '__record_fields__' not in b.attrs):
+            return self._object_binop(type(e.op), a, b)
         if self.symbolic and (isinstance(a, (Opaque, Sym)) or isinstance(b, (Opaque, Sym))):
             names = {ast.Add: '+', ast.Sub: '-', ast.Mult: '*', ast.BitAnd: '&', ast.BitOr: '|', ast.FloorDiv: '//', ast.Mod: '%', ast.Div: '/', ast.Pow: '**', ast.MatMult: '@'}
             if type(e.op) in names:
